@@ -30,11 +30,15 @@ FindIrrelevantBad(CT, T, res, sawNone) ==
        [] cl = "NothingForTop" -> T = TopT /\ res # {}}
 Related(CT, T, res) == {r \in res : SubTop(CT, AsType(CT, r), Hat(T)) \/ SubTop(CT, Hat(T), AsType(CT, r))}
 
-\* known-finding shape (F12): the query type has an "in" projection around a type that itself carries a projection
-RECURSIVE InOverProjection(_)
-InOverProjection(T) ==
+\* known-finding shape (F12): somewhere in the query a type that itself carries a projection sits in a contravariant
+\* position - under an "in" projection or in the slot of a declared-contravariant parameter; the search then offers
+\* subtypes of that inner type where supertypes are needed
+RECURSIVE InOverProjection(_, _)
+InOverProjection(CT, T) ==
   \/ T.k = "W" /\ T.n = "in" /\ T.a # <<>> /\ HasKind(T.a[1], {"W"})
-  \/ \E i \in DOMAIN T.a : InOverProjection(T.a[i])
+  \/ T.k = "C" /\ T.n \in DOMAIN CT /\ \E i \in DOMAIN T.a : i \in DOMAIN CT[T.n].tp /\ CT[T.n].tp[i].v = "in" /\ HasKind(T.a[i], {"W"})
+  \/ \E i \in DOMAIN T.a : InOverProjection(CT, T.a[i])
+
 \* ---- C08: instantiation helpers -------------------------------------------------------------------------------------
 \* tps     : Seq([n, v, b])            the type parameters being instantiated (of a class or of a generic function)
 \* pre     : name |-> term             assignments requested by the caller (partial)
